@@ -1,9 +1,17 @@
 #!/bin/sh
-# try_seed.sh <patch.diff> <Cxx> [tier]: apply a seeded change to /repo, run the check, undo the change
-P="$1"; ID="$2"; TIER="${3:-quick}"
-git -C /repo apply "$P" || exit 2
-cd /verif && timeout 1500 ./check "$ID" --tier "$TIER" 2>/tmp/try_seed_err.log | tail -3
-RC=$?
+# try_seed.sh <patch.diff> <Cxx> [tier]: apply a seeded change to /repo, run the check, undo the change.
+# The evidence file of the property is saved first and put back afterwards, so that the committed
+# evidence always describes a run on the unchanged tree (a run on a mutated tree records
+# violations=1 and discharged < obligations, which must never be committed).
+P="$(readlink -f "$1")"; ID="$2"; TIER="${3:-quick}"
+V="$(cd "$(dirname "$0")/.." && pwd)"
+S="$(mktemp -d)"
+[ -f "$V/evidence/$ID.json" ] && cp "$V/evidence/$ID.json" "$S/ev.json"
+git -C /repo apply "$P" || { rm -rf "$S"; exit 2; }
+cd "$V" && timeout 1500 ./check "$ID" --tier "$TIER" 2>"$S/err.log" | tail -3
 git -C /repo checkout -- .
-grep -c BROKEN /tmp/try_seed_err.log | sed 's/^/broken obligations: /'
-grep BROKEN /tmp/try_seed_err.log | cut -c1-300 | head -5
+cp "$V/evidence/$ID.json" "$S/mutated-ev.json" 2>/dev/null
+if [ -f "$S/ev.json" ]; then cp "$S/ev.json" "$V/evidence/$ID.json"; else rm -f "$V/evidence/$ID.json"; fi
+grep -c BROKEN "$S/err.log" | sed 's/^/broken obligations: /'
+grep BROKEN "$S/err.log" | cut -c1-300 | head -5
+rm -rf "$S"
